@@ -260,6 +260,8 @@ def run(ctx):
             C05.c05b(ctx, tu)
         from rules import C04
         C04.c04b(ctx, tu)   # C01.e (destructor unlinks) is recorded there
+        from rules import C14
+        C14.c14g(ctx, tu)   # the invariant "active list = live unsaturated expectations, newest first" survives a mock's move
         C04.c04e(ctx, tu)   # decommission unlinks every element
         C08.c08d(ctx, tu)   # records C01.d for matches()
         from rules import C03
